@@ -37,15 +37,15 @@ func Error(err error) *fhirpath.Expression {
 var (
 	// Empty is a FHIRPath expression that returns an empty collection when
 	// evaluated.
-	Empty = Return(system.Collection{})
+	Empty = ReturnCollection(system.Collection{})
 
 	// True is a FHIRPath expression that returns a collection containing a single
 	// system boolean of 'true'. This is useful for testing expected boolean
 	// logic in paths.
-	True = Return(system.Collection{system.Boolean(true)})
+	True = ReturnCollection(system.Collection{system.Boolean(true)})
 
 	// False is a FHIRPath expression that returns a collection containing a single
 	// system boolean of 'false'. This is useful for testing expected boolean
 	// logic in paths.
-	False = Return(system.Collection{system.Boolean(false)})
+	False = ReturnCollection(system.Collection{system.Boolean(false)})
 )
